@@ -41,11 +41,19 @@ def expand_minimal_spaces(
 
     stack: list[tuple[int, list[int] | None]] = [(node_id, None)]
 
+    skip_visited: set[int] = set()
+
     def make_skip_node(
         sd: SuccessionDiagram, node_id: int, all_minimal_traps: list[BooleanSpace]
     ):
         node = sd.node_data(node_id)
         if node["expanded"]:
+            # This node was expanded by some previous procedure. It is ignored here,
+            # but its unexpanded descendants still have to be skipped.
+            if node_id not in skip_visited:
+                skip_visited.add(node_id)
+                for s in sd.node_successors(node_id):
+                    make_skip_node(sd, s, all_minimal_traps)
             return
 
         # Attractor data computed for the unexpanded node is no longer valid.
